@@ -142,7 +142,12 @@ def families(args):
     if args.tier == 'quick':
         pairs = pairs[::2]
     fam2 = ppprop.Family('threading', pairs, None, ('table',), custom_work=thread_work)
-    return [fam, fam2]
+    # body texts that look like comments to a careless scanner (`//` inside a string, a trailing line comment, a continuation),
+    # recorded under strip_comments = true / false alike (function-like macros: text-level reference expander of C05)
+    import c05
+    mprogs = [p for p in ppfamily.macro_programs(args.tier, args.seed) if p.label.split('/', 1)[1] in ('string-with-slashes', 'body-line-comment', 'continuation', 'args-defaults')]
+    fam3 = ppprop.Family('returned-table/comment-like-bodies', mprogs, mk_case, ('table',), evalfn=c05.evalfn)
+    return [fam, fam2, fam3]
 
 
 def main():
